@@ -41,7 +41,19 @@ NOT_SHOWN = {
         "angles: `cylseg_special_functions_magnetization_free`); the batch path of el3 (n >= 10 rows) and float rounding are not modelled",
         "Cylinder (ported BHJM_magnet_cylinder, single-row path, cel0 opaque): full linearity in the polarization IS proved (`cylinder_linear_in_polarization`, whenever "
         "the three evaluations return; `cylinder_wrapper_linear`: the third returns whenever the first two do; plus proportionality and transversal + axial split as equalities of "
-        "optional results); not modelled: the vectorised celv path (n >= 10 rows)"],
+        "optional results); not modelled: the vectorised celv path (n >= 10 rows)",
+        "(audit 2) literal reading of the new theorems. The four sumup / pixel_agg theorems are stated for an abstract Group G with a DistribMulAction; the driver runs getBHF at "
+        "M3 Int (family level2, through getBH_eq_F) and at M3 Float (family level2f), neither a group: `sumup_after_eq_sum_before_on_driver_carrier`, "
+        "`sumup_of_pixel_agg_is_sum_of_aggregates_on_driver_carrier`, `sumup_commutes_with_sensor_frame_on_driver_carrier` (added by audit 2, octahedral rotation matrices, transfer "
+        "along getBHF_mapG) close this for M3 Int; NOTHING is proved about the Float evaluation (stream level2f only, tolerance 1e-9), and real rotations are a group only up to rounding. "
+        "`sumup_commutes_with_additive_pixel_agg`: the hypotheses hadd / hzero are shown to hold for `sum` only (`sum_is_additive_reduction`); `mean` is named in the text above but no "
+        "theorem instantiates it. `sum_of_max_ne_max_of_sum` is a `decide` on the driver's carrier (genuine witness). `cylseg_special_functions_magnetization_free` is a `decide` over the "
+        "table emitted by the translator (Model/CylSeg.lean, pinned to Gen/CylSegGen.lean by sync_specialCallDeps := rfl; 84 entries, non-emptiness now stated: "
+        "`cylseg_special_call_table_nonempty`); `magArgOffences = []` is the translator's own verdict, its scan is trusted; the Lean proof of cylseg_linear_in_magnetization does not use "
+        "either table. Circle / Cylinder: `circleHcyl_linear_total`, `cylinder_linear_in_polarization_total` (audit 2) discharge the `some` hypotheses by the termination lemmas behind C15 "
+        "(d > 0, h >= 0, resp. q2 > 0; input-dependent fuel bound, <= 200 shown for cel_iter0 only). CylinderSegment: equality of Options, `none` = NaN row on both sides; that the row is "
+        "`some` off the NaN case ids is C06 dispatch_falls_through_iff, not restated here. TIE: bhjmTrimesh (trimesh_linear_in_polarization) is not run against the real code by THIS check "
+        "(streams trimesh / trimesh batch: checks/C02.py, C06.py); the inside test and the mesh identification are free parameters of the theorem"],
  "06": ["batch-level control flow inside kernels (rowwise_c: trimesh grouping, segment early return, cel n<10) — kernel model pending",
         "np.squeeze / np.expand_dims / reshape semantics are assumed as modelled (shape list + unchanged row-major data), exercised by the stream"],
 }["05"]
@@ -63,6 +75,10 @@ def run(ctx, model_ok):
         st.pop("samples")
         ctx.cov["correspondence_exccancel"] = {"rows": st["rows"], "disagreements": st["disagreements"], **st["exccancel"]}
         ctx.cov["traces_validated_against_impl"] += st["rows"]
+    if ctx.driver_ok:
+        # (audit2) trimesh_linear_in_polarization is about Model/TrimeshSum.bhjmTrimesh (per row of any batch): tie it on this check's run too
+        from corr import trimesh_family
+        ctx.cov["correspondence_trimesh_batch"] = trimesh_family.run_batch_stream(ctx, ctx.scale(40, 1200))
     # the CylinderSegment theorems are about Model/CylSeg*.lean: is the frozen translation still what the source says, and does the port agree with the real code?
     from checks import _cylseg
     _cylseg.run(ctx, ctx.scale(300, 10000))
